@@ -7,7 +7,7 @@ META = {
     "level": "model_checking",
     "technique": "TLA+ spec of the pathdb layer tree (PathDB.tla: diff layer objects, disk layer generations, write buffer, frozen buffer with background flush, key-value store, lookup index, descendants, cap split into persist steps, two-step readers) model-checked with TLC; TLC-generated behaviours replayed on a real pathdb.Database driven through StateDB commits with white-box projection comparison, all-roots x all-keys reads through StateReader and NodeReader after every step, and reader/flush goroutines parked at gates in the TLC-chosen order",
     "text": "TLC explores all interleavings of Update (forks, repeated roots, cycles, orphans), cap/Commit (split into one step per diskLayer.commit, with buffer-full and async-flush variants), background flush completion and a reader whose lookup step and layer-read step are separated, and checks: every available root reads as exactly its state through the lookup fast path and the layer walk; a finished read returned the requested state's value or the stale error, and the stale error only when the reader's entry layer had left the tree; lookup lists = live diff layers that changed the key in ancestor order; descendants = transitive closure; disk layer content and id alignment. Behaviours sampled from the same model are executed on a real database (real tries and roots through state.StateDB.Commit; cap via the layer tree's own cap; reader parked by a gate between lookupAccount and layer.account while the scheduled cap/flush steps run; flush goroutine parked at buffer.flush start) and after every step the layer tree, buffers, persistent state, lookup index and descendants are compared with the model and every key is read at every available root; dropped roots must be refused.",
-    "note": "Trusts TLC, the projection in harness/cmd/c16 and the accessors/gates in triedb/pathdb/verif_export_read.go, verif_hook.go. Model keys: accounts (balance) and storage slots of one contract; trie-node reads are whole-key trie lookups over the NodeReader of the entry layer. Reads that run concurrently INSIDE one cap call are explored in the model only (cap is executed as one call on the real database). The specification describes the intended design (all children of a flattened layer are re-parented); the code's deviation is finding F1 (spec/state/NOTES.md), counted as pending, not as violation.",
+    "note": "Trusts TLC, the projection in harness/cmd/c16 and the accessors/gates in triedb/pathdb/verif_export_read.go, verif_hook.go. Model keys: accounts (balance) and storage slots of one contract; trie-node reads are whole-key trie lookups over the NodeReader of the entry layer. Reads that run concurrently INSIDE one cap call are explored in the model only (cap is executed as one call on the real database). The specification describes the design in which all children of a flattened layer are re-parented under their locks (RelinkSiblings = TRUE; the code before fix 13160d1914 is the FALSE variant, finding C16-F1 in spec/state/NOTES.md).",
     "design_ref": "3.3 C16",
 }
 
@@ -47,17 +47,8 @@ def run(ctx):
     bs += behaviours(ctx, "state/MCPathDBSimRd", ctx.pick(40, 500), 14, "MBT-PathDB-readers")
     bp = os.path.join(ctx.scratch, "behaviours.json")
     write_json(bp, bs)
-    strict = {"C16_STRICT": "1"} if os.environ.get("C16_STRICT") == "1" else None
-    s, _ = ctx.drive(drv, ["-mode", "replay", "-in", bp], name="c16-replay", timeout=T, env=strict)
-    pend = dict((s.get("extra") or {}).get("pending_findings") or {})
-    # deterministic reproduction of finding F1 through the public API (kept as pending finding)
-    s2, _ = ctx.drive(drv, ["-mode", "finding"], name="c16-finding-F1", timeout=T, env=strict)
-    for k, v in ((s2.get("extra") or {}).get("pending_findings") or {}).items():
-        pend[k] = pend.get(k, 0) + v
-    for k, v in sorted(pend.items()):
-        # TODO-KNOWN-FINDING F1: pending coordinator decision (fix: commit or known_findings.json)
-        line = "KNOWN-FINDING: property=C16 (pending) %s [x%d]" % (k, v)
-        ctx.known.append(line)
+    ctx.drive(drv, ["-mode", "replay", "-in", bp], name="c16-replay", timeout=T)
+    # regression scenario of the fixed defect C16-F1: fork exactly at the cap depth, default limits, Update only
+    ctx.drive(drv, ["-mode", "regress"], name="c16-fork-at-cap-depth", timeout=T)
     return ctx.finish(rule="MC: all interleavings with <= MaxObjs diff layers ever created, 2 keys, 1 reader; R: sampled behaviours (3 keys, values 0..2, <= 6 layers, depth 16) on the real database",
-                      assumptions=["cap is one call on the real database (reads inside a cap are model-only)",
-                                   "finding F1 (sibling of the capped path keeps a stale parent chain) is treated as pending"])
+                      assumptions=["cap is one call on the real database (reads inside a cap are model-only)"])
